@@ -1,4 +1,123 @@
-import CosetModel.Api
+/-
+  C08 — header maps: accepted only if well-formed, and every field means what the wire said.
+  Proved here: the "accepted ⇒ well-formed ∧ fields = wire" direction, in full (every field, any nesting position, the
+  loop of the code against a lookup-based declarative reading).  The converse ("well-formed ⇒ accepted") is covered by the
+  rule-directed correspondence stream and listed as not yet a theorem in MANIFEST.level_note.
+-/
+import CosetProofs.HeaderFields
+import CosetProofs.Props.C12
 namespace Coset.Props.C08
+open Coset Coset.Spec
+
+/-- the meaning of a counter-signature value at nesting budget `d`, with `sf` the decoder of one COSE_Signature. -/
+abbrev sigsOf (d : Nat) (sf : Value → Res CoseSignature) : Value → Res (List CoseSignature) := counterSigArm d sf
+
+/-- a successful step leaves IV and Partial IV not both set. -/
+theorem step_not_both (d : Nat) (sf : Value → Res CoseSignature) (h h1 : Header) (lv : Label × Value)
+    (hs : headerStep d sf h lv = .ok h1) : ¬ (h1.iv ≠ [] ∧ h1.partialIv ≠ []) := by
+  unfold headerStep at hs
+  cases hd : headerDispatch d sf lv.1 lv.2 h with
+  | ok h2 =>
+    simp only [hd] at hs
+    by_cases hb : (!h2.iv.isEmpty && !h2.partialIv.isEmpty) = true
+    · simp [hb] at hs
+    · simp only [hb, Bool.false_eq_true, if_false] at hs
+      simp at hs; subst hs
+      intro ⟨h1, h2'⟩
+      apply hb
+      simp [List.isEmpty_iff, h1, h2']
+  | err e => simp [hd] at hs
+  | panic p => simp [hd] at hs
+
+theorem fold_not_both (d : Nat) (sf : Value → Res CoseSignature) : ∀ (ps : List (Label × Value)) (h0 h : Header),
+    ¬ (h0.iv ≠ [] ∧ h0.partialIv ≠ []) → foldRes (headerStep d sf) ps h0 = .ok h → ¬ (h.iv ≠ [] ∧ h.partialIv ≠ []) := by
+  intro ps
+  induction ps with
+  | nil => intro h0 h hn hf; simp [foldRes] at hf; subst hf; exact hn
+  | cons p ps ih =>
+    intro h0 h _ hf
+    simp only [foldRes] at hf
+    cases hs : headerStep d sf h0 p with
+    | ok h1 => simp only [hs] at hf; exact ih h1 h (step_not_both d sf h0 h1 p hs) hf
+    | err e => simp [hs] at hf
+    | panic q => simp [hs] at hf
+
+/-- C08 (⇒): whatever `Header::from_cbor_value` accepts is a map whose keys denote pairwise distinct labels, in which each
+    standard parameter present has its RFC 8152 §3.1 shape, and the result's fields are exactly the wire values under their
+    labels, absent parameters absent/empty, all other pairs kept unchanged in wire order; IV and Partial IV never both. -/
+theorem accepted_is_wellformed (fuel d : Nat) (v : Value) (h : Header) (hok : Header.fromValue (fuel + 1) d v = .ok h) :
+    ∃ m ls, v = .map m ∧ keyLabels m = .ok ls ∧ ls.Nodup ∧
+      HeaderOf (sigsOf d (CoseSignature.fromValue fuel (d - 1))) (ls.zip (m.map (·.2))) Header.default h ∧
+      ¬ (h.iv ≠ [] ∧ h.partialIv ≠ []) := by
+  cases v with
+  | map m =>
+    simp only [Header.fromValue, tryAsMap] at hok
+    obtain ⟨ls, hl, hfr, hfold⟩ := (headerLoop_ok_iff _ _ m _ _ _).mp hok
+    have hlen : ls.length = m.length := by
+      have : ∀ (xs : List Value) (ys : List Label), mapRes Label.fromValue xs = .ok ys → ys.length = xs.length := by
+        intro xs; induction xs with
+        | nil => intro ys h; simp [mapRes] at h; subst h; rfl
+        | cons x xs ih => intro ys h; rw [mapRes_cons_ok] at h; obtain ⟨y, ys', _, h2, rfl⟩ := h; simp [ih ys' h2]
+      simpa using this _ _ hl
+    have hnd : ((ls.zip (m.map (·.2))).map (·.1)).Nodup := by
+      rw [List.map_fst_zip (by simp [hlen])]; exact hfr.1
+    refine ⟨m, ls, rfl, hl, hfr.1, fold_headerOf d _ _ _ _ hnd hfold, fold_not_both d _ _ _ _ (by simp [Header.default, Header.iv]) hfold⟩
+  | _ => simp [Header.fromValue, tryAsMap, typeError] at hok
+
+/-- anything that is not a map is rejected. -/
+theorem not_a_map_rejected (fuel d : Nat) (v : Value) (hv : ∀ m, v ≠ .map m) : ∀ h, Header.fromValue fuel d v ≠ .ok h := by
+  intro h hok
+  cases fuel with
+  | zero => simp [Header.fromValue] at hok
+  | succ f => cases v <;> simp_all [Header.fromValue, tryAsMap, typeError]
+
+/-- a counter signature value is one COSE_Signature (first element a byte string) or a non-empty array of them. -/
+theorem counter_signature_shape (d : Nat) (sf : Value → Res CoseSignature) (v : Value) (ss : List CoseSignature)
+    (h : counterSigArm d sf v = .ok ss) :
+    ∃ a, v = .array a ∧ a ≠ [] ∧ d ≠ 0 ∧
+      ((∃ b s, a.head? = some (.bytes b) ∧ sf (.array a) = .ok s ∧ ss = [s]) ∨ ((∃ x, a.head? = some (.array x)) ∧ mapRes sf a = .ok ss)) := by
+  cases v with
+  | array a =>
+    simp only [counterSigArm, tryAsArray] at h
+    by_cases he : a.isEmpty = true
+    · simp [he] at h
+    · simp only [he, Bool.false_eq_true, if_false] at h
+      by_cases hd : d = 0
+      · simp [hd] at h
+      · simp only [hd, if_false] at h
+        cases a with
+        | nil => simp at he
+        | cons x xs =>
+          refine ⟨x :: xs, rfl, by simp, hd, ?_⟩
+          simp only [vindex, List.getElem?_cons_zero] at h
+          cases x with
+          | bytes b =>
+            simp only [] at h
+            cases hs : sf (.array (.bytes b :: xs)) with
+            | ok s => simp [hs] at h; exact Or.inl ⟨b, s, rfl, rfl, h.symm⟩
+            | err e => simp [hs] at h
+            | panic p => simp [hs] at h
+          | array y => simp only [] at h; exact Or.inr ⟨⟨y, rfl⟩, h⟩
+          | _ => simp [typeError] at h
+  | _ => simp [counterSigArm, tryAsArray, typeError] at h
+
+/-- the outcome is a function of the CBOR data-model value: every encoding that parses to the same value decodes alike. -/
+theorem depends_only_on_value (b1 b2 : Bytes) (v : Value) (h1 : readToValue b1 = .ok v) (h2 : readToValue b2 = .ok v) :
+    fromSlice hdrFromValue b1 = fromSlice hdrFromValue b2 := by simp [fromSlice, h1, h2]
+
+/-- non-vacuity: all seven standard parameters plus two extras are accepted; one violated rule each is rejected. -/
+example : (fromSlice hdrFromValue [0xa2, 0x01, 0x26, 0x04, 0x42, 0x31, 0x31]).isOk = true := by decide +kernel
+example : (hdrFromValue (.map [(.int 1, .int (-7)), (.int 2, .array [.int 1]), (.int 3, .text [0x61, 0x2f, 0x62]), (.int 4, .bytes [1]),
+    (.int 5, .bytes [2]), (.int 7, .array [.bytes [], .map [], .bytes [9]]), (.int 99, .null), (.text [0x7a], .int 1)])).isOk = true := by decide +kernel
+example : (hdrFromValue (.map [(.int 5, .bytes [1]), (.int 6, .bytes [2])])).errKind? = some .unexpectedItem := by decide +kernel
+example : (hdrFromValue (.map [(.int 2, .array [])])).errKind? = some .unexpectedItem := by decide +kernel
+example : (hdrFromValue (.map [(.int 3, .text [0x20, 0x61, 0x2f, 0x62])])).errKind? = some .unexpectedItem := by decide +kernel
+
+#print axioms step_not_both
+#print axioms fold_not_both
+#print axioms accepted_is_wellformed
+#print axioms not_a_map_rejected
+#print axioms counter_signature_shape
+#print axioms depends_only_on_value
 
 end Coset.Props.C08
